@@ -283,4 +283,71 @@ PROPS = {
             "C07: step-size search is a hand-written model (Model/StepSizeSearch.lean) tied by correspondence through Strategy::init with a mock Hamiltonian; DualAverage/Adam/acceptance statistics are translated from source",
         ],
     },
+    "C10": {
+        "gen": [],
+        "thm_module": "NutsModel.Thm.CtlTrace",
+        "namespace": "NutsModel.Ctl",
+        "theorems": ["trace_eq_range", "drawn_eq_recorded", "schedule_independent_prefix", "schedule_independent_complete",
+                     "trace_prefix_full", "streams_distinct", "resume_exact", "n_step_mono"],
+        "harness": "C10",
+        "level": "proof",
+        "rule": ('the REAL parallel Sampler (rayon pool, 1..16 cores, 1..8 chains, HashMap and Arrow traces, Diag/LowRank NUTS and MCLMC presets) run under seeded schedule perturbation (hook arm_schedule: random sleeps/yields at every chain-loop and controller point) with a seeded script of pause / resume / progress / flush / inspect / wait_timeout / abort calls, a watchdog for hangs and catch_unwind for panics. ' +
+                 "C10 mode: no failures, no abort. Direct oracle: every chain's finalised trace (all variables, bit patterns) equals the trace of "
+                 "the SAME chain run alone and sequentially (Settings::new_chain with the chain's seed/stream, no threads), whatever the core count, "
+                 "number of other chains and command script; no two chains of a run have identical draws. "
+                 "distinct_nontrivial = runs with a non-empty command script."),
+        "trusted": ['C10-C13: the chain task and controller actions are a hand-written model (Model/Controller.lean): one loop iteration is one atomic step (justified: everything before the record part is chain-local and the trace mutex is held across record+progress); channels are FIFO lists; rayon scheduling, mpsc and Mutex internals, OS threads and timeouts are NOT modelled -- they are exercised by the real-sampler runs under seeded schedule perturbation, which sample interleavings rather than enumerate them', "C10-C13: tie = every chain task's event log (hook chain_event: task start, message seen at each loop top, blocking receive, draw, record, slot-gone, end) is replayed through the model's chainStep by the Lean driver and must be a run of the model"] + [
+            "C10: proved for the model: under every schedule the recorded trace is [0..n) of the chain's own stream (nothing lost, duplicated, reordered); that the k-th expanded_draw of a chain depends on its seed only (no shared mutable state, ChaCha8 stream = chain+1) is the model's assumption, checked by the bit-exact comparison with the sequential replay",
+        ],
+    },
+    "C11": {
+        "gen": [],
+        "thm_module": "NutsModel.Thm.CtlTrace",
+        "namespace": "NutsModel.Ctl",
+        "theorems": ["no_deadlock", "terminates_after_finalize", "terminates_after_finalize_tight", "never_blocked_when_dead",
+                     "complete_if_not_aborted", "n_le_total", "trace_prefix_invariant", "trace_prefix_full", "progress_agrees",
+                     "zero_total_records_nothing", "done_no_step"],
+        "harness": "C11",
+        "level": "proof",
+        "rule": ('the REAL parallel Sampler (rayon pool, 1..16 cores, 1..8 chains, HashMap and Arrow traces, Diag/LowRank NUTS and MCLMC presets) run under seeded schedule perturbation (hook arm_schedule: random sleeps/yields at every chain-loop and controller point) with a seeded script of pause / resume / progress / flush / inspect / wait_timeout / abort calls, a watchdog for hangs and catch_unwind for panics. ' +
+                 "C11 mode: command scripts including repeated pause, resume without pause, commands after completion, abort while paused / "
+                 "before any chain started, num_chains <,=,> num_cores, slow chains; runs end by wait or by abort. Direct oracle: every call "
+                 "returns (watchdog), an un-aborted run records exactly num_tune+num_draws draws per chain equal to the sequential trace and "
+                 "reports finished, an aborted run's traces are prefixes of the sequential traces, progress counters never exceed the trace. "
+                 "distinct_nontrivial = runs with a non-empty command script."),
+        "trusted": ['C10-C13: the chain task and controller actions are a hand-written model (Model/Controller.lean): one loop iteration is one atomic step (justified: everything before the record part is chain-local and the trace mutex is held across record+progress); channels are FIFO lists; rayon scheduling, mpsc and Mutex internals, OS threads and timeouts are NOT modelled -- they are exercised by the real-sampler runs under seeded schedule perturbation, which sample interleavings rather than enumerate them', "C10-C13: tie = every chain task's event log (hook chain_event: task start, message seen at each loop top, blocking receive, draw, record, slot-gone, end) is replayed through the model's chainStep by the Lean driver and must be a run of the model"] + [
+            "C11: deadlock freedom is proved per chain (a chain has no step only if finished or blocked in recv with a live sender; after finalize it terminates within mailbox+2 steps); the controller thread's own select loop and the rendezvous command channel are exercised, not modelled",
+        ],
+    },
+    "C12": {
+        "gen": [],
+        "thm_module": "NutsModel.Thm.CtlTrace",
+        "namespace": "NutsModel.Ctl",
+        "theorems": ["pause_bound", "pause_blocks", "blocked_no_step", "blocked_stable", "not_started_stays_idle", "not_started_blocks",
+                     "resume_exact", "resume_unblocks", "resume_unblocks_exact", "trace_eq_range", "schedule_independent_complete"],
+        "harness": "C12",
+        "level": "proof",
+        "rule": ('the REAL parallel Sampler (rayon pool, 1..16 cores, 1..8 chains, HashMap and Arrow traces, Diag/LowRank NUTS and MCLMC presets) run under seeded schedule perturbation (hook arm_schedule: random sleeps/yields at every chain-loop and controller point) with a seeded script of pause / resume / progress / flush / inspect / wait_timeout / abort calls, a watchdog for hangs and catch_unwind for panics. ' +
+                 "C12 mode: pause placed at seeded points of the chain loop, progress sampled right after pause() returned, again after a delay, "
+                 "then resume. Direct oracle: finished_draws after pause() returned grows by at most 1 + (commands outstanding for that chain), "
+                 "then not at all until resume(); final trace equals the sequential trace. "
+                 "distinct_nontrivial = runs in which the pause probe (progress right after pause(), after a delay, then resume) was taken."),
+        "trusted": ['C10-C13: the chain task and controller actions are a hand-written model (Model/Controller.lean): one loop iteration is one atomic step (justified: everything before the record part is chain-local and the trace mutex is held across record+progress); channels are FIFO lists; rayon scheduling, mpsc and Mutex internals, OS threads and timeouts are NOT modelled -- they are exercised by the real-sampler runs under seeded schedule perturbation, which sample interleavings rather than enumerate them', "C10-C13: tie = every chain task's event log (hook chain_event: task start, message seen at each loop top, blocking receive, draw, record, slot-gone, end) is replayed through the model's chainStep by the Lean driver and must be a run of the model"],
+    },
+    "C13": {
+        "gen": [],
+        "thm_module": "NutsModel.Thm.CtlTrace",
+        "namespace": "NutsModel.Ctl",
+        "theorems": ["no_spurious_error", "error_has_cause", "err_step_failed", "draw_failure_fails", "record_failure_fails",
+                     "init_failure_fails", "failure_is_reported", "error_sticky", "sampler_reports_error"],
+        "harness": "C13",
+        "level": "proof",
+        "rule": ('the REAL parallel Sampler (rayon pool, 1..16 cores, 1..8 chains, HashMap and Arrow traces, Diag/LowRank NUTS and MCLMC presets) run under seeded schedule perturbation (hook arm_schedule: random sleeps/yields at every chain-loop and controller point) with a seeded script of pause / resume / progress / flush / inspect / wait_timeout / abort calls, a watchdog for hangs and catch_unwind for panics. ' +
+                 "C13 mode: one or several chains fail at a seeded draw (initialisation, warmup, sampling, last draw) by: unrecoverable density "
+                 "error, storage failure in record_sample, model construction failure, all initialisation points failing; plus recoverable-only "
+                 "errors. Direct oracle: wait_timeout/abort returns Err (never Ok, never a panic of the caller, never a hang) iff some chain hit "
+                 "an unrecoverable failure; recoverable errors never terminate a chain. "
+                 "distinct_nontrivial = runs in which a chain task actually hit its unrecoverable failure."),
+        "trusted": ['C10-C13: the chain task and controller actions are a hand-written model (Model/Controller.lean): one loop iteration is one atomic step (justified: everything before the record part is chain-local and the trace mutex is held across record+progress); channels are FIFO lists; rayon scheduling, mpsc and Mutex internals, OS threads and timeouts are NOT modelled -- they are exercised by the real-sampler runs under seeded schedule perturbation, which sample interleavings rather than enumerate them', "C10-C13: tie = every chain task's event log (hook chain_event: task start, message seen at each loop top, blocking receive, draw, record, slot-gone, end) is replayed through the model's chainStep by the Lean driver and must be a run of the model"],
+    },
 }
